@@ -1941,6 +1941,11 @@ namespace bloch::compiler {
         auto errorWithTypes = [&](const std::string& message) {
             throw BlochError(ErrorCategory::Semantic, node.line, node.column, message);
         };
+        if ((lt.className.empty() && lt.value == ValueType::Void) ||
+            (rt.className.empty() && rt.value == ValueType::Void)) {
+            throw BlochError(ErrorCategory::Semantic, node.line, node.column,
+                             "the result of a 'void' call cannot be used as an operand");
+        }
         if ((lt.value == ValueType::Null || rt.value == ValueType::Null) && node.op != "==" &&
             node.op != "!=") {
             throw BlochError(ErrorCategory::Semantic, node.line, node.column,
